@@ -90,6 +90,11 @@ CLAIMED = {
     text='reader_sees_whole and outputs_always_complete hold in every interleaving of any number of extractions and readers; partial_failure_clean shows that a member failing part-way leaves every output path bound as before and no temporary name. The real CacheRead::extract_objects is run over existing outputs with descriptors opened beforehand, hard links and corrupt/missing later members, its effect is replayed on the model, and the real binary is observed restoring a path while a reader is in the middle of the old file.',
     note='Trusted: Lean kernel, Model/Atomic.lean (tied by h_extract and h_atomic), POSIX rename semantics.',
     ref='DESIGN.md section 4 C10, Appendix A.5, B.2'),
+
+ 'C20': dict(technique='Lean 4 proof (invariant over all interleavings of the client/server start-up protocol for TCP; inactivity-timer invariant over all event sequences; kernel-checked Unix-socket witness) + process census of real cold starts and witness replay on the real binary',
+    text='tcp_singleton (any number of clients, any interleaving), idle_not_before and idle_disabled_never_exits (any sequence of arrivals and polls) are proved; unix_second_server is a kernel-checked witness that the property fails for Unix-socket addresses (finding F-C20-a), replayed on the real binary. Real cold starts with 2..N simultaneous clients are censused (one server, every request correct), a stop request with a compile in flight and the idle exit time are measured. Partial: real process schedules cannot be enumerated; no line-protocol correspondence for this model.',
+    note='Trusted: Lean kernel, Model/Startup.lean and Idle.lean (hand-read from commands.rs / server.rs; tied only by census and witness replay), OS bind semantics.',
+    ref='DESIGN.md section 4 C20, Appendix B.10'),
 }
 NA_REASON = 'not yet wired into ./check in this round (model and theorems exist under lean/; see DESIGN.md section 0.1)'
 def hooks():
